@@ -89,7 +89,8 @@ Definition iat_header_line : bytes := (repeat 53%N 50 ++ [73; 65; 84]%N ++ repea
 Example read_line_examples :
   (exists l, read_line false [53; 50; 50; 53]%N = Ok [(l, KBatchHeader)] /\ length l = 94) /\
   read_line true iat_header_line = Ok [(iat_header_line, KBatchHeaderIAT)] /\
-  (exists l, read_line false [120]%N = Ok [(l, KUnknown)]) /\ read_line false (concat (repeat [195; 169]%N 50)) = Err.
+  (exists l, read_line false [120]%N = Ok [(l, KUnknown)]) /\
+  (exists l, read_line false (concat (repeat [195; 169]%N 50)) = Ok [(l, KUnknown)] /\ rune_count l = 94%nat).
 Proof. vm_compute. repeat split; try reflexivity; eexists; try split; reflexivity. Qed.
 
 (* optional sub-records *)
